@@ -434,6 +434,11 @@ func (in *absInterp) Call(fn *ssa.Function, args []aval, bind []aval) aval {
 						panic(absPanic{aAtom{"runtime error: index out of range"}})
 					}
 					fr.vals[x] = deepCopy(a.e[idx])
+				case aStr:
+					if int(idx) < 0 || int(idx) >= len(a) {
+						panic(absPanic{aAtom{"runtime error: index out of range"}})
+					}
+					fr.vals[x] = aInt(int64(string(a)[idx]))
 				default:
 					in.fail("index of %T", a)
 				}
@@ -541,6 +546,14 @@ func (in *absInterp) Call(fn *ssa.Function, args []aval, bind []aval) aval {
 			case *ssa.MakeMap:
 				fr.vals[x] = newAMap()
 			case *ssa.Lookup:
+				if str, isStr := in.get(fr, x.X).(aStr); isStr {
+					idx, _ := in.get(fr, x.Index).(aInt)
+					if int(idx) < 0 || int(idx) >= len(str) {
+						panic(absPanic{aAtom{"runtime error: index out of range"}})
+					}
+					fr.vals[x] = aInt(int64(string(str)[idx]))
+					break
+				}
 				key, ok := in.get(fr, x.Index).(aStr)
 				if !ok {
 					in.fail("map key %T", in.get(fr, x.Index))
@@ -668,6 +681,16 @@ func (in *absInterp) binop(x *ssa.BinOp, a, b aval) aval {
 			return ai - bi
 		case token.MUL:
 			return ai * bi
+		case token.QUO:
+			if bi == 0 {
+				panic(absPanic{aAtom{"runtime error: integer divide by zero"}})
+			}
+			return ai / bi
+		case token.REM:
+			if bi == 0 {
+				panic(absPanic{aAtom{"runtime error: integer divide by zero"}})
+			}
+			return ai % bi
 		case token.AND:
 			return ai & bi
 		case token.OR:
